@@ -57,6 +57,16 @@ def programs(t):
     for (le, re) in [(0, -65), (-65, 0), (3, -66), (0, -64), (-101, 0), (0, -126)] + ([(1, -70), (-69, 0), (0, -99), (-64, 1)] if t else []):
         lines.append('P(i128, %d, i128, %d, 2)' % (le, re))
     lines.append('P(u128, 0, u128, -65, 2)')
+    # unsigned elastic reps whose digits fill a storage word (32, 64) and beyond: with a negative built-in operand on either
+    # side, with a signed built-in-rep scaled_integer, and under unary minus (every program negates both operands)
+    for d in ([32, 40, 64] if not t else [8, 16, 31, 32, 33, 40, 63, 64]):
+        lines.append('PIR(EU<%d>, -4, 2, i32)' % d)
+        lines.append('PIL(i32, EU<%d>, -2, 2)' % d)
+        lines.append('P(EU<%d>, 0, i32, -3, 2)' % d)
+        lines.append('P(i16, 2, EU<%d>, 0, 2)' % d)
+        lines.append('P(EU<%d>, 0, EU<%d>, -3, 2)' % (d, min(d, 31)))
+        if d <= 40:
+            lines.append('PIR(EU<%d>, 0, 2, i64)' % d)
     for (d, le, re) in [(30, 0, -71), (20, -67, 0), (31, 0, -65), (40, -64, 0)] + ([(7, 0, -100), (50, 3, -70)] if t else []):
         lines.append('P(ES<%d>, %d, ES<%d>, %d, 2)' % (d, le, d, re))
     return lines
